@@ -50,7 +50,8 @@ def _op_strategy(kinds_weighted, n_variants, allow_pm_false=False):
                              slot, member, st.lists(task, min_size=1, max_size=3), st.booleans(), st.booleans(),
                              st.sampled_from(['name', 'object', 'single', 'generator']), st.booleans())
         if kind == 'fault':
-            return st.builds(lambda s, m, t: {'op': 'fault', 'slug_of': [s, m, t], 'n': 1}, slot, member, task)
+            return st.builds(lambda s, m, t, how: {'op': 'fault', 'slug_of': [s, m, t], 'n': 1, 'how': how}, slot, member, task,
+                             st.sampled_from(['error', 'error', 'interrupt', 'save', 'mistyped']))
         if kind == 'restart':
             return st.just({'op': 'restart'})
         raise ValueError(kind)
@@ -65,24 +66,47 @@ def _op_strategy(kinds_weighted, n_variants, allow_pm_false=False):
 
 
 @st.composite
-def histories(draw, kinds_weighted, max_ops=20, n_variants=(1, 3), gen_kw=None, salt=False, session_kinds=None):
+def histories(draw, kinds_weighted, max_ops=20, n_variants=(1, 3), gen_kw=None, salt=False, session_kinds=None,
+              name_mode=False):
     gen_kw = dict(gen_kw or {})
     base = draw(gen.cases(**gen_kw))
     nv = draw(st.integers(*n_variants))
+    # name mode (parameter_mode=False: a result's file name is the config's name).  Its documented limits: no contexts,
+    # unique config names, no config mounted twice - so such a history uses ONE configuration for all its chains.
+    nm = False
+    if name_mode and draw(st.integers(0, 5)) == 0 and not base.get('context'):
+        try:
+            insts = model.compose(base)
+            nm = len({(i.fi, i.part) for i in insts}) == len(insts)
+        except model.ModelError:
+            nm = False
+    if nm:
+        nv = 1
     variants = draw(variants_of(base, nv - 1)) if nv > 1 else [base]
-    ops = [{'op': 'chain', 'variant': 0, 'pm': True}]
+    ops = [{'op': 'chain', 'variant': 0, 'pm': not nm}]
     opst = _op_strategy(kinds_weighted, len(variants))
     n = draw(st.integers(3, max_ops))
+
+    def adapt(op):
+        if nm and op['op'] == 'multichain':
+            op = {'op': 'chain', 'variant': 0, 'registry': None}
+        if op['op'] == 'chain':
+            op['pm'] = not nm
+        return op
+
     for _ in range(n):
         op = draw(opst)
         if op['op'] == '__session__':
             sk = session_kinds or {'chain': 2, 'value': 5, 'inspect': 1}
-            sops = [{'op': 'chain', 'variant': draw(st.integers(0, len(variants) - 1)), 'pm': True}]
-            sops += draw(st.lists(_op_strategy(sk, len(variants)), min_size=1, max_size=5))
+            sops = [{'op': 'chain', 'variant': draw(st.integers(0, len(variants) - 1)), 'pm': not nm}]
+            sops += [adapt(o) for o in draw(st.lists(_op_strategy(sk, len(variants)), min_size=1, max_size=5))]
             ops.append({'op': 'session', 'ops': sops})
         else:
-            ops.append(op)
-    return {'program': base['program'], 'variants': variants, 'ops': ops, 'salt': salt}
+            ops.append(adapt(op))
+    h = {'program': base['program'], 'variants': variants, 'ops': ops, 'salt': salt}
+    if nm:
+        h['name_mode'] = True
+    return h
 
 
 def describe(hist):
@@ -131,11 +155,13 @@ def run_history(hist, zygote=None, flags=False, relevant=None, on_step=None, kee
                         out.steps.append({'kind': 'skipped'})
                         continue
                     req = {'hist': hist, 'data': str(root / 'data'), 'cfg_root': str(root / 'cfg'), 'ops': op['ops'],
-                           'seq0': RT.seq, 'armed': dict(RT.fail), 'flags': flags}
+                           'seq0': RT.seq, 'armed': dict(RT.fail), 'special': dict(RT.special), 'flags': flags}
                     rep = zygote.run(req, str(root / f'session{step}.json'))
                     RT.seq = rep['seq']
                     RT.fail.clear()
                     RT.fail.update(rep.get('armed', {}))
+                    RT.special.clear()
+                    RT.special.update(rep.get('special', {}))
                     proc = f'session{step}'
                     res = []
                     for sop, obs in zip(op['ops'], rep['obs']):
@@ -192,7 +218,7 @@ def closing_ops(hist, slots=3, tasks=8, session=True):
                 ops.append({'op': 'value', 'slot': sl, 'member': m, 'task': t})
     if session:
         for vi in range(len(hist['variants'])):
-            sops = [{'op': 'chain', 'variant': vi, 'pm': True}]
+            sops = [{'op': 'chain', 'variant': vi, 'pm': not hist.get('name_mode')}]
             sops += [{'op': 'value', 'slot': 0, 'member': 0, 'task': t} for t in range(tasks)]
             ops.append({'op': 'session', 'ops': sops})
     return ops
